@@ -7,7 +7,7 @@ rsync -a --exclude .git --exclude tests/output /repo/ "$D/"
 ( cd "$D" && patch -p1 -s < "$PATCH" ) || { echo "PATCH FAILED"; rm -rf "$D"; exit 3; }
 cd /verif
 for P in "$@"; do
-  VERIF_REPO="$D" VERIF_EVIDENCE_DIR="$D/.evidence" VERIF_REPLAY_DIR="$D/.replay" timeout 1800 ./check "$P" --tier quick > "$D/out_$P.txt" 2>&1
+  VERIF_REPO="$D" VERIF_EVIDENCE_DIR="$D/.evidence" VERIF_REPLAY_DIR="$D/.replay" timeout 3000 ./check "$P" --tier quick > "$D/out_$P.txt" 2>&1
   rc=$?
   echo "$P rc=$rc  $(grep -m1 -E '^VIOLATION|HARNESS-ERROR' "$D/out_$P.txt")"
   grep -m1 -A1 '^VIOLATION' "$D/out_$P.txt" | tail -1
